@@ -447,15 +447,74 @@ def build_inlined_view(c):
     new = [g for g in c.thir if g not in base and '{closure' not in g and c.fns.get(g, {}).get('kind') in ('Fn', 'AssocFn')]
     c.ithir = dict(c.thir)
     c.inlined = []
-    if not new or not base: return
-    inl = Inliner(c)
-    for name, t in list(c.thir.items()):
+    if new and base:
+        inl = Inliner(c)
+        for name, t in list(c.thir.items()):
+            if '{closure' in name: continue
+            nb = inl.expand(t['body'], name, 0)
+            if inl.inlined and nb != t['body']:
+                nt = dict(t); nt['body'] = nb
+                c.ithir[name] = nt
+        c.inlined = sorted(set(inl.inlined))
+    args_as_fields(c)
+
+def args_as_fields(c):
+    """`let Args { model, input, .. } = Args::parse();` reads as `let args = Args::parse();` with every use of an (immutable) destructured
+    local as the field `args.model`: the rules that follow the command line through `args.<field>` see both spellings"""
+    def unwrap(p):
+        while p.get('k') in ('Deref', 'DerefPattern', 'AscribeUserType'): p = p.get('sub') or p.get('subpattern')
+        return p
+    for name, t in list(c.ithir.items()):
         if '{closure' in name: continue
-        nb = inl.expand(t['body'], name, 0)
-        if inl.inlined and nb != t['body']:
-            nt = dict(t); nt['body'] = nb
-            c.ithir[name] = nt
-    c.inlined = sorted(set(inl.inlined))
+        found = []
+        for b in walk(t['body']):
+            if b['k'] != 'Block': continue
+            for st in b['stmts']:
+                if st['k'] != 'Let' or st.get('init') is None or st.get('else') is not None: continue
+                q = unwrap(st['pat'])
+                if q.get('k') != 'Leaf' or 'adt' not in q or not canon(q['adt']).endswith('::Args'): continue
+                adt = c.adts.get(canon(q['adt']))
+                if adt is None or len(adt['variants']) != 1: continue
+                fs = adt['variants'][0]['fields']
+                m = {}
+                ok = True
+                for sp in q['subs']:
+                    b_ = unwrap(sp['pat'])
+                    if b_.get('k') == 'Wild': continue
+                    if b_.get('k') != 'Binding' or b_.get('sub') is not None or b_.get('mutable') or sp['field'] >= len(fs): ok = False; break
+                    m[b_['var']] = (sp['field'], fs[sp['field']]['name'], b_.get('ty'))
+                if ok and m: found.append((st, q, m))
+        if not found: continue
+        subst = {}
+        for k, (st, q, m) in enumerate(found):
+            av = 'args#destructured%d' % k
+            for v, (idx, fname, ty) in m.items(): subst[v] = (av, idx, fname, q.get('ty'), ty)
+        reassigned = set()
+        bodies = [(name, t)] + [(g, ct) for g, ct in c.ithir.items() if g.startswith(name + '::{closure')]
+        for g, bt in bodies:
+            for x in walk(bt['body']):
+                if x['k'] in ('Assign', 'AssignOp'):
+                    l = x['lhs']
+                    while l.get('k') in ('Deref', 'Use'): l = l.get('arg') or l.get('source')
+                    if l.get('k') in ('VarRef', 'UpvarRef') and l['var'] in subst: reassigned.add(l['var'])
+        if reassigned: continue
+        pats = {id(st): (q, k) for k, (st, q, m) in enumerate(found)}
+        def rw(x):
+            if isinstance(x, list): return [rw(y) for y in x]
+            if not isinstance(x, dict): return x
+            if x.get('k') in ('VarRef', 'UpvarRef') and x.get('var') in subst:
+                av, idx, fname, aty, fty = subst[x['var']]
+                return {'k': 'Field', 'loc': x.get('loc'), 'ty': x.get('ty'), 'field': idx, 'field_name': fname, 'synthetic': 'args-destructured',
+                        'lhs': {'k': x['k'], 'var': av, 'loc': x.get('loc'), 'ty': aty}}
+            if x.get('k') == 'Let' and id(x) in pats:
+                q, k = pats[id(x)]
+                o = {a: (rw(b) if isinstance(b, (dict, list)) and a != 'pat' else b) for a, b in x.items()}
+                o['pat'] = {'k': 'Binding', 'name': 'args', 'var': 'args#destructured%d' % k, 'by_ref': False, 'mutable': False, 'loc': q.get('loc'), 'ty': q.get('ty'), 'sub': None}
+                return o
+            return {a: (rw(b) if isinstance(b, (dict, list)) else b) for a, b in x.items()}
+        for g, bt in bodies:
+            nt = dict(bt); nt['body'] = rw(bt['body'])
+            c.ithir[g] = nt
 
 
 def extend_map_as_loops(body, crate):
